@@ -254,3 +254,38 @@ func c13Main(e *Env) (*res.Result, error) {
 }
 
 var c13Served func(e *Env) (*res.Result, error)
+
+func init() { c13Served = c13ServedMain }
+
+// c13ServedMain: the served half through the compiled driver.
+func c13ServedMain(e *Env) (*res.Result, error) {
+	n := 40
+	if !e.Quick() {
+		n = 240
+	}
+	disabled := disabledTags()
+	forms := specgen.BaseForms()
+	hostile := []string{"`", "a`b\n", "\"quoted\"", `back\slash`, "tab\there", "line1\r\nline2\r\n", "no newline at end", "\ufeffwith bom\n", "`+\"`\"+`", "${x} $$ `\n`", "multi\nline\n", "\r", "a\\nb", "x\n\"y\"\n`z`\n\\"}
+	specs := collect(e, "C13", n, func(t *rapid.T) PkgSpec {
+		c := specgen.NewCtx(t, disabled)
+		bf := rapid.SampledFrom(forms).Draw(t, "baseform")
+		d := c.RouterDoc(specgen.RouterOpts{MaxN: 4, MaxDepth: 3})
+		// a root-level catch-all template that can match the spec path
+		if rapid.IntRange(0, 2).Draw(t, "catch_all") == 0 {
+			v := c.PlainName("v", "catchall")
+			d.Paths["/{"+v+"}"] = &specgen.PathItem{Get: &specgen.Operation{Parameters: []*specgen.Parameter{{Name: v, In: "path", Required: true, Schema: &specgen.Schema{Type: "string"}}}, Responses: specgen.EmptyResponses()}}
+		}
+		d.Servers = bf.Servers
+		cfg := inproc.Config{BasePath: bf.Flag, DoNotEdit: true}
+		cfg.SpecHandlerName = rapid.SampledFrom([]string{"openapi.yaml", "openapi.yaml", "spec.json", "openapi", "api-docs.yml"}).Draw(t, "spec_handler_name")
+		ps := PkgSpec{Doc: d, Cfg: cfg, Meta: map[string]any{"baseform": bf.Name}}
+		switch rapid.IntRange(0, 2).Draw(t, "content_kind") {
+		case 0:
+			ps.Embed = []byte(rapid.SampledFrom(hostile).Draw(t, "hostile"))
+		case 1:
+			ps.Embed = d.OneLineJSON()
+		}
+		return ps
+	})
+	return compiledMain(e, "C13", specs, false, 20*time.Minute)
+}
